@@ -6,6 +6,9 @@ import (
 	"fmt"
 	"math/rand"
 	"sync"
+
+	"github.com/wmnsk/go-pfcp/ie"
+	"github.com/wmnsk/go-pfcp/message"
 )
 
 // C07 — UP-chosen identifiers are unique among live users.
@@ -299,4 +302,42 @@ func R_C07_conc() {
 			vStressFail(fmt.Sprintf("round %d: %d identifiers in use after %d allocations", round, len(g.usedMap), workers))
 		}
 	}
+}
+
+// H_C07_live: an identifier the UPF chose stays marked in use for as long as its
+// session lives, whatever other sessions - with CP-chosen tunnel identifiers of
+// any value, the same one included - come and go.
+func H_C07_live() {
+	e := vNewEnv(false)
+	e.pc.rng = vRng()
+	e.dp.fixedCause = 1
+	pdrs, fars, qers := vConcreteRules()
+	pdrs[0].choose = true
+	e.vSend(vEstablishment(1, 0xa1, "cp.test", pdrs, fars, qers))
+	ra, ok := e.vLastReply().(*message.SessionEstablishmentResponse)
+	vAssert("A-accepted", ok && vCauseOf(ra.Cause) == ie.CauseRequestAccepted && len(ra.CreatedPDR) == 1)
+	ft, err := ra.CreatedPDR[0].FTEID()
+	vAssert("A-reports-its-teid", err == nil && ft.TEID != 0)
+	tA := ft.TEID
+	vAssert("A-teid-marked", e.u.fteidGenerator.IsAllocated(tA))
+	// session B: the CP chooses the uplink TEID (any value)
+	p2, f2, q2 := vConcreteRules()
+	p2[0].teid = vU32("cp_chosen_teid")
+	p2[0].ue, p2[1].ue = [4]byte{10, 250, 0, 9}, [4]byte{10, 250, 0, 9}
+	e.vSend(vEstablishment(2, 0xb1, "cp.test", p2, f2, q2))
+	rb, ok := e.vLastReply().(*message.SessionEstablishmentResponse)
+	vAssert("B-answered", ok)
+	if vCauseOf(rb.Cause) == ie.CauseRequestAccepted {
+		fs, _ := rb.UPFSEID.FSEID()
+		switch vChoose("end_of_B", 2) {
+		case 0:
+			e.vSend(vDeletion(3, fs.SEID))
+		case 1:
+			e.vSend(message.NewSessionReportResponse(0, 0, fs.SEID, 3, 0, ie.NewCause(ie.CauseSessionContextNotFound)))
+		}
+		vCover("B-ended")
+	}
+	vAssert("A-teid-still-marked-after-B-came-and-went", e.u.fteidGenerator.IsAllocated(tA))
+	vAssert("exactly-the-live-upf-chosen-identifiers-are-marked", len(e.u.fteidGenerator.usedMap) == 1)
+	vCover("live")
 }
